@@ -56,6 +56,14 @@ def gen(tier, rng):
         tags = ["in_domain", "seeded", "three-block-seed", "corpus"] + (["crate-only"] if e["set"] in seen else [])
         seen.add(e["set"])
         out.append(Case("keypair", e["set"], [bytes.fromhex(e["seed"])], tags))
+    # rare values: seeds whose t = A*s1 + s2 has a coefficient exactly 0 or exactly q-1 (about 1 seed in 8000 / 10000)
+    tv = os.path.join(os.path.dirname(CORPUS), "c04_t_value_seeds.json")
+    seen = set()
+    for e in (json.load(open(tv)) if os.path.exists(tv) else []):
+        key = (e["set"], e["t_value"])
+        tags = ["in_domain", "seeded", "t-coefficient-%s" % ("zero" if e["t_value"] == 0 else "q-1"), "corpus"] + (["crate-only"] if key in seen or e["t_value"] else [])
+        seen.add(key)
+        out.append(Case("keypair", e["set"], [bytes.fromhex(e["seed"])], tags))
     if tier == "thorough":
         for cp, sd in fresh_three_block_seeds(rng, 2):
             out.append(Case("keypair", cp, [sd], ["in_domain", "seeded", "three-block-seed", "crate-only"]))
